@@ -36,11 +36,7 @@ def graphOf (j : Json) : Graph :=
   { size := p.size, root := p.root, name := p.name, children := fun i => ch.getD i [],
     sval := fun l n => (svals.getD l #[]).getD n [] }
 
-def axisOf : String → Axis
-  | "self" => .self | "child" => .child | "descendant" => .descendant
-  | "descendant-or-self" => .descendantOrSelf | "direct-child" => .directChild
-  | "direct-descendant" => .directDescendant | "direct-descendant-or-self" => .directDescendantOrSelf
-  | _ => .self
+def axisOf (s : String) : Axis := (Axis.ofName s).getD .self
 
 def cmpOf : String → CmpOp
   | "<" => .lt | "<=" => .le | ">" => .gt | ">=" => .ge | "==" => .eq | _ => .ne
@@ -79,8 +75,7 @@ partial def isAbsolute (toks : List Json) : Bool :=
   | _ => false
 end
 
-def modeOf : String → Mode
-  | "nullset" => .nullset | "nullfail" => .nullfail | _ => .nullglob
+def modeOf (s : String) : Mode := (Mode.ofName s).getD .nullglob
 
 def jStr (s : Str) : Json := Json.str (String.ofList s)
 def jNats (l : List Nat) : Json := Json.arr (l.map fun (n : Nat) => (n : Json)).toArray
